@@ -137,15 +137,23 @@ impl<L: LSPLang> LanguageServer for Backend<L> {
       .await;
   }
   async fn did_open(&self, params: DidOpenTextDocumentParams) {
+    #[cfg(ast_grep_verif)]
+    let verif_uri = params.text_document.uri.to_string();
     self.on_open(params).await;
     self
       .client
       .log_message(MessageType::INFO, "file opened!")
       .await;
+    #[cfg(ast_grep_verif)]
+    verif_handler_done("open", &verif_uri);
   }
 
   async fn did_change(&self, params: DidChangeTextDocumentParams) {
+    #[cfg(ast_grep_verif)]
+    let verif_uri = params.text_document.uri.to_string();
     self.on_change(params).await;
+    #[cfg(ast_grep_verif)]
+    verif_handler_done("change", &verif_uri);
   }
 
   async fn did_save(&self, _: DidSaveTextDocumentParams) {
@@ -156,11 +164,15 @@ impl<L: LSPLang> LanguageServer for Backend<L> {
   }
 
   async fn did_close(&self, params: DidCloseTextDocumentParams) {
+    #[cfg(ast_grep_verif)]
+    let verif_uri = params.text_document.uri.to_string();
     self.on_close(params).await;
     self
       .client
       .log_message(MessageType::INFO, "file closed!")
       .await;
+    #[cfg(ast_grep_verif)]
+    verif_handler_done("close", &verif_uri);
   }
 
   async fn code_action(&self, params: CodeActionParams) -> Result<Option<CodeActionResponse>> {
@@ -170,6 +182,16 @@ impl<L: LSPLang> LanguageServer for Backend<L> {
   async fn execute_command(&self, params: ExecuteCommandParams) -> Result<Option<Value>> {
     Ok(self.on_execute_command(params).await)
   }
+}
+
+/// verification hook: a document notification handler has run to its end
+#[cfg(ast_grep_verif)]
+fn verif_handler_done(kind: &str, uri: &str) {
+  use ast_grep_core::verif_hook::{emit, quote};
+  emit(
+    "lsp_handler_done",
+    &format!("\"kind\":{},\"uri\":{}", quote(kind), quote(uri)),
+  );
 }
 
 impl<L: LSPLang> Backend<L> {
